@@ -51,8 +51,8 @@ static const RegisterInitCode RULE_CODE[R_NRULES] = {
 
 struct expect {
     int n;
-    RegisterInitCode code[R_NRULES + 3]; /* the two overlap rules admit two indices each */
-    long index[R_NRULES + 3]; /* -1: index not demanded */
+    RegisterInitCode code[8 * (R_NRULES + 3) + 1]; /* the two overlap rules admit two indices each; four readings of "ascending" */
+    long index[8 * (R_NRULES + 3) + 1]; /* -1: index not demanded */
 };
 
 static void
@@ -95,11 +95,29 @@ area_containing_whole(const struct tspec *s, const struct rspec *r)
     return (int)area_containing_whole_l(s->a, s->na, r);
 }
 
+/* a subnormal float pattern */
+static bool
+bits_subnormal(RegisterType t, uint64_t bits)
+{
+    if (t == REG_TYPE_FLOAT32)
+        return ((bits >> 23) & 0xff) == 0 && (bits & 0x7fffff) != 0;
+    if (t == REG_TYPE_FLOAT64)
+        return ((bits >> 52) & 0x7ff) == 0 && (bits & 0xfffffffffffffull) != 0;
+    return false;
+}
+
+/* reading of "acceptable to its own register" for subnormal float defaults in
+ * the current reference pass: false = not acceptable (what the typed set of
+ * the library documents: zero or normal only), true = acceptable (a library
+ * that stores subnormals).  reference_lists unites both; what is accepted must
+ * read back (C04/defaults-loaded). */
+static bool g_subnormal_ok;
+
 static bool
 default_acceptable(const struct rspec *r)
 {
     const uint64_t bits = ref_bits(r->type, r->def);
-    bool okd = ref_storable(r->type, bits);
+    bool okd = ref_storable(r->type, bits) || (g_subnormal_ok && bits_subnormal(r->type, bits));
     if (okd && r->ckind != K_FAIL)
         okd = ref_constraint(r, r->def);
     return okd;
@@ -119,29 +137,39 @@ default_acceptable(const struct rspec *r)
  * lower index.  (The rule-major answer, the index-major answer and the answer
  * of a single walk over the registers are three of them.)  The two overlap
  * rules are reported with the index of either of the two overlapping
- * neighbours. */
-static void
-reference_lists(const struct aspec *a, long na, const struct rspec *r, long nr, struct expect *e)
+ * neighbours.
+ *
+ * Equal starts (two areas with the same base, two registers with the same
+ * address): "ascending" can be read as non-descending (the pair then violates
+ * "non-overlapping" only) or as strictly ascending (current <= previous
+ * violates the order rule).  Both readings are admissible, independently for
+ * the area list and for the register list: the Pareto-minimal sets of all four
+ * combinations are united.  strict_a / strict_r select the reading of one
+ * pass. */
+static bool
+reference_pass(const struct aspec *a, long na, const struct rspec *r, long nr, bool strict_a, bool strict_r, struct expect *e)
 {
+    bool violated = false;
     long first[R_NRULES];
     for (int k = 0; k < R_NRULES; ++k)
         first[k] = -1;
-    e->n = 0;
     if (na == 0)
         first[R_NO_AREAS] = 0; /* comes before everything else */
     /* areas ascending and non-overlapping */
     for (long i = 1; i < na && (first[R_AREA_ORDER] < 0 || first[R_AREA_OVERLAP] < 0); ++i) {
-        if (a[i].base < a[i - 1].base) {
+        const bool overlap = (uint64_t)a[i].base < (uint64_t)a[i - 1].base + a[i - 1].size;
+        if (a[i].base < a[i - 1].base || (strict_a && a[i].base == a[i - 1].base && overlap)) {
             if (first[R_AREA_ORDER] < 0) first[R_AREA_ORDER] = i;
-        } else if ((uint64_t)a[i].base < (uint64_t)a[i - 1].base + a[i - 1].size) {
+        } else if (overlap) {
             if (first[R_AREA_OVERLAP] < 0) first[R_AREA_OVERLAP] = i;
         }
     }
     /* registers ascending and non-overlapping */
     for (long i = 1; i < nr && (first[R_ENTRY_ORDER] < 0 || first[R_ENTRY_OVERLAP] < 0); ++i) {
-        if (r[i].addr < r[i - 1].addr) {
+        const bool overlap = (uint64_t)r[i].addr < (uint64_t)r[i - 1].addr + ref_words(r[i - 1].type);
+        if (r[i].addr < r[i - 1].addr || (strict_r && r[i].addr == r[i - 1].addr && overlap)) {
             if (first[R_ENTRY_ORDER] < 0) first[R_ENTRY_ORDER] = i;
-        } else if ((uint64_t)r[i].addr < (uint64_t)r[i - 1].addr + ref_words(r[i - 1].type)) {
+        } else if (overlap) {
             if (first[R_ENTRY_OVERLAP] < 0) first[R_ENTRY_OVERLAP] = i;
         }
     }
@@ -167,16 +195,36 @@ reference_lists(const struct aspec *a, long na, const struct rspec *r, long nr, 
             if (k == R_AREA_OVERLAP || k == R_ENTRY_OVERLAP)
                 expect_add(e, RULE_CODE[k], first[k] - 1);
             best = first[k];
+            violated = true;
         }
-    if (e->n == 0)
-        expect_add(e, REG_INIT_SUCCESS, -1);
+    return violated;
+}
+
+static void
+reference_lists(const struct aspec *a, long na, const struct rspec *r, long nr, struct expect *e)
+{
+    e->n = 0;
+    bool any_subnormal = false;
+    for (long i = 0; i < nr && !any_subnormal; ++i)
+        any_subnormal = bits_subnormal(r[i].type, ref_bits(r[i].type, r[i].def));
+    /* the non-descending reading with subnormal defaults not acceptable comes
+     * first: e->code[0] / e->index[0] name it in reports */
+    for (int sub = 0; sub < (any_subnormal ? 2 : 1); ++sub) {
+        bool violated = false;
+        g_subnormal_ok = sub != 0;
+        for (int reading = 0; reading < 4; ++reading)
+            violated |= reference_pass(a, na, r, nr, (reading & 1) != 0, (reading & 2) != 0, e);
+        if (!violated)
+            expect_add(e, REG_INIT_SUCCESS, -1);
+    }
+    g_subnormal_ok = false;
 }
 
 /* "A@i or B@j or ..." */
 static const char *
 expect_str(const struct expect *e)
 {
-    static char buf[420];
+    static char buf[900];
     size_t l = 0;
     buf[0] = 0;
     for (int i = 0; i < e->n && l + 48 < sizeof buf; ++i)
@@ -234,8 +282,12 @@ note_over_limit(void)
 
 /* after a refused initialisation the typed, block, iteration and sanitise
  * operations report the table as uninitialised */
+/* nr: registers in the description.  The typed and bit operations are probed
+ * with handle 0; in a description without registers there is no such register,
+ * so "no such entry" applies to them as much as "uninitialised" does (a library
+ * may look at the handle first): both answers are accepted there. */
 static bool
-check_uninitialised(RegisterTable *t, uint32_t base0, const char *odesc, int preinit, RegisterInitCode code)
+check_uninitialised(RegisterTable *t, uint32_t base0, long nr, const char *odesc, int preinit, RegisterInitCode code)
 {
     RegisterValue v;
     memset(&v, 0, sizeof v);
@@ -267,8 +319,9 @@ check_uninitialised(RegisterTable *t, uint32_t base0, const char *odesc, int pre
     static const char *opn[NOPS] = { "set", "set_unsafe", "get", "block_read", "block_write", "foreach_in", "sanitise", "bit_set", "bit_clear",
                                      "block_read (of 0 words)", "block_write (of 0 words)", "block_read (of 2 words)", "block_write (of 2 words)",
                                      "foreach_in (over 0 addresses)", "foreach_in (over addresses above the table)" };
+    static const bool typed[NOPS] = { true, true, true, false, false, false, false, true, true };
     for (int i = 0; i < NOPS; ++i)
-        if (c[i] != REG_ACCESS_UNINITIALISED) {
+        if (c[i] != REG_ACCESS_UNINITIALISED && !(nr == 0 && typed[i] && c[i] == REG_ACCESS_NOENTRY)) {
             mc_fail("C04/failed-init-leaves-uninitialised", "%s preinit=%d: after %s, register_%s answered code %d instead of UNINITIALISED",
                     odesc, preinit, initname(code), opn[i], c[i]);
             return false;
@@ -423,11 +476,19 @@ one_init(const struct tspec *s, bool preinit, const char *odesc, bool dirty, lon
     }
     mc_log("%s preinit=%d -> %s@%ld; reference: %s", odesc, preinit, initname(ri.code), idx, expect_str(&e));
     bool ok = true;
-    bool want_success = e.code[0] == REG_INIT_SUCCESS;
+    /* with subnormal float defaults both verdicts may be admissible (see
+     * g_subnormal_ok): may_succeed and may_refuse are then both true */
+    bool may_succeed = false, may_refuse = false;
     bool match = false;
-    for (int i = 0; i < e.n; ++i)
+    for (int i = 0; i < e.n; ++i) {
+        if (e.code[i] == REG_INIT_SUCCESS)
+            may_succeed = true;
+        else
+            may_refuse = true;
         if (ri.code == e.code[i] && (e.index[i] < 0 || e.index[i] == idx))
             match = true;
+    }
+    bool want_success = may_succeed && (!may_refuse || ri.code == REG_INIT_SUCCESS);
     if (fault_hit) {
         /* a default could not be stored: any refusal is admissible (whatever
          * else is wrong with the table); for a well-formed table success is
@@ -450,7 +511,7 @@ one_init(const struct tspec *s, bool preinit, const char *odesc, bool dirty, lon
     } else if (!want_success) {
         n_bad++;
         /* every operation reports the table as uninitialised */
-        if (!check_uninitialised(&tb.t, s->na ? s->a[0].base : 0, odesc, preinit, ri.code))
+        if (!check_uninitialised(&tb.t, s->na ? s->a[0].base : 0, s->nr, odesc, preinit, ri.code))
             ok = false;
     } else {
         n_ok++;
@@ -681,6 +742,122 @@ run_lists(const struct grid *g, const uint32_t *ab, const uint32_t *as, int na, 
     mc_end(true, !ok ? "failed" : n_ok == 0 ? "all-refused" : n_bad == 0 ? "all-accepted" : "mixed");
 }
 
+/* ---- family F: float default patterns ---------------------------------------------
+ * "Every default that gets loaded is acceptable to its own register", for float
+ * registers: every IEEE class of default pattern -- +-0, smallest / middle /
+ * largest subnormal of either sign, smallest and largest normal of either sign,
+ * 1.0, +-infinity, quiet / signalling / negative / all-ones NaN -- in an f32 or
+ * f64 register under every constraint kind (none, min -1, max 1, range -1..1,
+ * callback "not negative", always-fail), the register alone at every address
+ * 0..5 of the layout or in a pair with a 16-bit register (good or bad default)
+ * before or behind it, two area layouts x area options (plain, all
+ * callback-backed, skip-defaults / no write callback per area), LE/BE.
+ * Acceptable: zero or normal (what the typed set documents) and inside the
+ * constraint; infinities and NaN never; for subnormal patterns both verdicts
+ * are admissible (g_subnormal_ok).  Whatever is accepted in a loading area has
+ * to read back bit for bit (C04/defaults-loaded). */
+static const uint32_t F32_PAT[] = {
+    0x00000000u, 0x80000000u, 0x00000001u, 0x80000001u, 0x00400000u, 0x007fffffu, 0x807fffffu, 0x00800000u, 0x80800000u,
+    0x3f800000u, 0x7f7fffffu, 0xff7fffffu, 0x7f800000u, 0xff800000u, 0x7fc00000u, 0x7f800001u, 0xffc00000u, 0x7fffffffu,
+};
+static const uint64_t F64_PAT[] = {
+    0x0000000000000000ull, 0x8000000000000000ull, 0x0000000000000001ull, 0x8000000000000001ull, 0x0008000000000000ull,
+    0x000fffffffffffffull, 0x800fffffffffffffull, 0x0010000000000000ull, 0x8010000000000000ull,
+    0x3ff0000000000000ull, 0x7fefffffffffffffull, 0xffefffffffffffffull, 0x7ff0000000000000ull, 0xfff0000000000000ull,
+    0x7ff8000000000000ull, 0x7ff0000000000001ull, 0xfff8000000000000ull, 0x7fffffffffffffffull,
+};
+#define NFPAT 18
+
+static void
+mkfloat(struct rspec *r, RegisterType t, uint32_t addr, int ckind, int pat)
+{
+    memset(r, 0, sizeof *r);
+    r->type = t;
+    r->addr = addr;
+    r->ckind = ckind;
+    if (t == REG_TYPE_FLOAT32) {
+        r->lo.f32 = -1.0f;
+        r->hi.f32 = 1.0f;
+        r->def = ref_from_bits(t, F32_PAT[pat]);
+    } else {
+        r->lo.f64 = -1.0;
+        r->hi.f64 = 1.0;
+        r->def = ref_from_bits(t, F64_PAT[pat]);
+    }
+}
+
+static void
+family_float(void)
+{
+    static const struct {
+        int na;
+        uint32_t base[2], size[2];
+    } L[2] = { { 1, { 0 }, { 8 } }, { 2, { 0, 2 }, { 2, 6 } } };
+    MC_ANCHOR(sizeof F32_PAT / sizeof F32_PAT[0] == NFPAT && sizeof F64_PAT / sizeof F64_PAT[0] == NFPAT, "float pattern tables");
+    for (int li = 0; li < 2; ++li) {
+        const int na = L[li].na;
+        for (int opt = 0; opt < 2 + 2 * na; ++opt)
+            /* lists: 0..11 the float register alone at address 0..5 (f32, f64);
+             * 12..19 u16@0 (good/bad) + float@1 / @2; 20..27 float@0 + u16@4 (good/bad) / u16@2 (inside an f64: overlap) */
+            for (int list = 0; list < 28; ++list) {
+                const RegisterType ft = (list & 1) ? REG_TYPE_FLOAT64 : REG_TYPE_FLOAT32;
+                char ld[80];
+                if (list < 12)
+                    snprintf(ld, sizeof ld, "%s@%d", TYPE_NAME[ft], list / 2);
+                else if (list < 20)
+                    snprintf(ld, sizeof ld, "u16@0 (%s default) %s@%d", (list & 2) ? "bad" : "good", TYPE_NAME[ft], (list & 4) ? 2 : 1);
+                else
+                    snprintf(ld, sizeof ld, "%s@0 u16@%d (%s default)", TYPE_NAME[ft], (list & 4) ? 2 : 4, (list & 2) ? "bad" : "good");
+                char ad[40];
+                if (na > 1)
+                    snprintf(ad, sizeof ad, "%u+%u %u+%u", L[li].base[0], L[li].size[0], L[li].base[1], L[li].size[1]);
+                else
+                    snprintf(ad, sizeof ad, "%u+%u", L[li].base[0], L[li].size[0]);
+                if (!mc_case("float defaults: areas[%s] opt=%d regs[%s] x 18 default patterns x 6 constraint kinds x LE/BE", ad, opt, ld))
+                    continue;
+                n_ok = n_bad = 0;
+                bool ok = true;
+                for (int ck = K_NONE; ck < K_NKINDS && ok; ++ck)
+                    for (int pat = 0; pat < NFPAT && ok; ++pat)
+                        for (int be = 0; be < 2 && ok; ++be) {
+                            struct tspec s;
+                            memset(&s, 0, sizeof s);
+                            s.be = be;
+                            s.na = na;
+                            for (int i = 0; i < na; ++i) {
+                                s.a[i] = (struct aspec){ L[li].base[i], L[li].size[i], REG_AF_RW, false, false };
+                                if (opt == 1 + 2 * i)
+                                    s.a[i].flags |= REG_AF_SKIP_DEFAULTS;
+                                if (opt == 2 + 2 * i) {
+                                    s.a[i].nowrite = true;
+                                    s.a[i].flags = REG_AF_READABLE;
+                                    s.a[i].cb = be;
+                                }
+                                if (opt == 1 + 2 * na)
+                                    s.a[i].cb = true;
+                            }
+                            if (list < 12) {
+                                s.nr = 1;
+                                mkfloat(&s.r[0], ft, (uint32_t)(list / 2), ck, pat);
+                            } else if (list < 20) {
+                                s.nr = 2;
+                                mkreg(&s.r[0], 0, 1, (list & 2) != 0, 0);
+                                mkfloat(&s.r[1], ft, (list & 4) ? 2 : 1, ck, pat);
+                            } else {
+                                s.nr = 2;
+                                mkfloat(&s.r[0], ft, 0, ck, pat);
+                                mkreg(&s.r[1], (list & 4) ? 2 : 4, 1, (list & 2) != 0, 0);
+                            }
+                            char od[96];
+                            snprintf(od, sizeof od, "float default pattern #%d (%016llx) constraint=%s %s", pat,
+                                     (unsigned long long)(ft == REG_TYPE_FLOAT32 ? F32_PAT[pat] : F64_PAT[pat]), CKIND_NAME[ck], be ? "BE" : "LE");
+                            ok = one_init(&s, false, od, false, -1);
+                        }
+                mc_end(true, !ok ? "failed" : n_ok == 0 ? "float-all-refused" : n_bad == 0 ? "float-all-accepted" : "float-mixed");
+            }
+    }
+}
+
 static const uint32_t RSZ[3] = { 1, 2, 4 };
 
 /* all register lists of length 0..lr for one area list */
@@ -797,12 +974,28 @@ g_promote(struct gtab *g, long area)
     g->store_words[area] = words;
 }
 
+/* the area a descriptor handed to an accessor describes: the table's own
+ * descriptor by its place in the array; a copy of it (a library may hand the
+ * accessor a snapshot of the descriptor) by the description fields the accessor
+ * is entitled to read, looked up in the description.  -1: none. */
+static long
+g_cb_area_index(const struct gtab *g, const RegisterArea *a)
+{
+    const uintptr_t p = (uintptr_t)a, lo = (uintptr_t)g->areas;
+    if (p >= lo && p < lo + (uintptr_t)g->na * sizeof(RegisterArea) && (p - lo) % sizeof(RegisterArea) == 0)
+        return (long)((p - lo) / sizeof(RegisterArea));
+    for (long i = 0; i < g->na; ++i)
+        if (g->a[i].cb && g->a[i].base == a->base && g->a[i].size == a->size)
+            return i;
+    return -1;
+}
+
 static RegisterAccess
 g_cb_read(const RegisterArea *a, RegisterAtom *dest, RegisterOffset off, RegisterOffset n)
 {
     RegisterAccess rv = REG_ACCESS_RESULT_INIT;
     struct gtab *g = g_gt;
-    const long i = (long)(a - g->areas);
+    const long i = g_cb_area_index(g, a);
     if (i < 0 || i >= g->na || (uint64_t)off + n > g->a[i].size) {
         g->cb_oob++;
         for (RegisterOffset k = 0; k < n; ++k)
@@ -825,7 +1018,7 @@ g_cb_write(RegisterArea *a, const RegisterAtom *src, RegisterOffset off, Registe
 {
     RegisterAccess rv = REG_ACCESS_RESULT_INIT;
     struct gtab *g = g_gt;
-    const long i = (long)(a - g->areas);
+    const long i = g_cb_area_index(g, a);
     g->cb_writes++;
     if (i < 0 || i >= g->na || (uint64_t)off + n > g->a[i].size) {
         g->cb_oob++;
@@ -1040,7 +1233,7 @@ g_init_and_check(struct gtab *g, const char *prefix, bool *accepted)
         g_over_limit = true;
         note_over_limit();
         n_bad++;
-        return check_uninitialised(&g->t, na ? a[0].base : 0, odesc, 0, ri.code);
+        return check_uninitialised(&g->t, na ? a[0].base : 0, nr, odesc, 0, ri.code);
     }
     if (!match) {
         if (want_success)
@@ -1053,7 +1246,7 @@ g_init_and_check(struct gtab *g, const char *prefix, bool *accepted)
     }
     if (!want_success) {
         n_bad++;
-        return check_uninitialised(&g->t, na ? a[0].base : 0, odesc, 0, ri.code);
+        return check_uninitialised(&g->t, na ? a[0].base : 0, nr, odesc, 0, ri.code);
     }
     n_ok++;
     if (nr > g_ai_cap) {
@@ -1798,15 +1991,15 @@ family_history(bool thorough)
     hfamily_enumerate(thorough, hcase_visit);
 }
 
-#define NEWBOUND_Q "; dirty-descriptor runs also compared with a fresh twin under every iteration window; WIDE: one area of {6,0xffff,0x10000,0x10001,0x10004,0x1ffff,0x20001} words at 10 bases (0, 0x1000, 0xfffd, 0x10000, 0x7ffffffe, ending at 2^31, ending 5/2/1/0 words below 2^32) x neighbour {none, adjacent behind, one word behind, adjacent before, on the last two words, before but listed behind} x {callback-backed, memory-backed} x all register lists of length 0..2 over the addresses around start / offset 2^16 / end x size {1,2,4} x bad-default masks x variants (memory-backed: singles and pairs led by a register at the base; malformed area lists: length 0..1); LONG: {255..258, 65535..65538} 16-bit registers in one or two areas (split around 2^8 / 2^16) x one violated rule {none, order, overlap, default, hole, straddle, beyond} at indices around 2^8 / 2^16 / last; {254..258} areas of 4 words x one violated rule at indices around 2^8 (a description with at least as many registers / areas as the library's header gives as its limit may also be refused as too large); HISTORY: every ordered pair (D1, D2) of 16960 descriptions (8 area layouts x register lists over address 0..7 x size {1,2}: all of length 0..2 with the last default good/bad, all triples with non-descending starts and all ascending 16-bit quadruples memory-backed, all of length 0..2 callback-backed), D1 reduced to its residue in the descriptors, D2 checked as fresh plus iteration over every window compared with a fresh twin"
-#define NEWBOUND_T "; dirty-descriptor runs also compared with a fresh twin under every iteration window; WIDE: one area of {6,0xffff,0x10000,0x10001,0x10004,0x1ffff,0x20001} words at 10 bases (0, 0x1000, 0xfffd, 0x10000, 0x7ffffffe, ending at 2^31, ending 5/2/1/0 words below 2^32) x neighbour {none, adjacent behind, one word behind, adjacent before, on the last two words, before but listed behind} x {callback-backed, memory-backed} x all register lists of length 0..3 (3: ascending starts) over the addresses around start / offset 2^16 / end x size {1,2,4} x bad-default masks x variants (memory-backed: singles and pairs led by a register at the base; malformed area lists: length 0..1); LONG: {255..258, 65535..65538} 16-bit registers in one or two areas (split around 2^8 / 2^16) x one violated rule {none, order, overlap, default, hole, straddle, beyond} at indices around 2^8 / 2^16 / last; {254..258} areas of 4 words x one violated rule at indices around 2^8 (a description with at least as many registers / areas as the library's header gives as its limit may also be refused as too large); HISTORY: every ordered pair (D1, D2) of 361440 descriptions (12 area layouts x register lists over address 0..7 x size {1,2,4}: all of length 0..3 with the last default good/bad and the ascending 16-bit quadruples memory-backed, all of length 0..2 callback-backed), D1 reduced to its residue in the descriptors, D2 checked as fresh plus iteration over every window compared with a fresh twin"
+#define NEWBOUND_Q "; FLOAT: f32/f64 register alone at address 0..5 or paired with a 16-bit register (good/bad default) before/behind it x 2 area layouts x area options x 18 default patterns (+-0, subnormals, smallest/largest normals, 1.0, +-inf, four NaNs) x 6 constraint kinds x LE/BE (subnormal defaults: refusal, or acceptance with exact read-back); dirty-descriptor runs also compared with a fresh twin under every iteration window; WIDE: one area of {6,0xffff,0x10000,0x10001,0x10004,0x1ffff,0x20001} words at 10 bases (0, 0x1000, 0xfffd, 0x10000, 0x7ffffffe, ending at 2^31, ending 5/2/1/0 words below 2^32) x neighbour {none, adjacent behind, one word behind, adjacent before, on the last two words, before but listed behind} x {callback-backed, memory-backed} x all register lists of length 0..2 over the addresses around start / offset 2^16 / end x size {1,2,4} x bad-default masks x variants (memory-backed: singles and pairs led by a register at the base; malformed area lists: length 0..1); LONG: {255..258, 65535..65538} 16-bit registers in one or two areas (split around 2^8 / 2^16) x one violated rule {none, order, overlap, default, hole, straddle, beyond} at indices around 2^8 / 2^16 / last; {254..258} areas of 4 words x one violated rule at indices around 2^8 (a description with at least as many registers / areas as the library's header gives as its limit may also be refused as too large); HISTORY: every ordered pair (D1, D2) of 16960 descriptions (8 area layouts x register lists over address 0..7 x size {1,2}: all of length 0..2 with the last default good/bad, all triples with non-descending starts and all ascending 16-bit quadruples memory-backed, all of length 0..2 callback-backed), D1 reduced to its residue in the descriptors, D2 checked as fresh plus iteration over every window compared with a fresh twin"
+#define NEWBOUND_T "; FLOAT: f32/f64 register alone at address 0..5 or paired with a 16-bit register (good/bad default) before/behind it x 2 area layouts x area options x 18 default patterns (+-0, subnormals, smallest/largest normals, 1.0, +-inf, four NaNs) x 6 constraint kinds x LE/BE (subnormal defaults: refusal, or acceptance with exact read-back); dirty-descriptor runs also compared with a fresh twin under every iteration window; WIDE: one area of {6,0xffff,0x10000,0x10001,0x10004,0x1ffff,0x20001} words at 10 bases (0, 0x1000, 0xfffd, 0x10000, 0x7ffffffe, ending at 2^31, ending 5/2/1/0 words below 2^32) x neighbour {none, adjacent behind, one word behind, adjacent before, on the last two words, before but listed behind} x {callback-backed, memory-backed} x all register lists of length 0..3 (3: ascending starts) over the addresses around start / offset 2^16 / end x size {1,2,4} x bad-default masks x variants (memory-backed: singles and pairs led by a register at the base; malformed area lists: length 0..1); LONG: {255..258, 65535..65538} 16-bit registers in one or two areas (split around 2^8 / 2^16) x one violated rule {none, order, overlap, default, hole, straddle, beyond} at indices around 2^8 / 2^16 / last; {254..258} areas of 4 words x one violated rule at indices around 2^8 (a description with at least as many registers / areas as the library's header gives as its limit may also be refused as too large); HISTORY: every ordered pair (D1, D2) of 361440 descriptions (12 area layouts x register lists over address 0..7 x size {1,2,4}: all of length 0..3 with the last default good/bad and the ascending 16-bit quadruples memory-backed, all of length 0..2 callback-backed), D1 reduced to its residue in the descriptors, D2 checked as fresh plus iteration over every window compared with a fresh twin"
 
 int
 main(int argc, char **argv)
 {
     mc_init(argc, argv);
     int64_t ncase = 0;
-    char bound[3400];
+    char bound[4000];
     if (!mc_thorough()) {
         const struct grid g1 = { 2, 2, 6, 3, { 1, 2, 4 }, 8 };
         enum_all(&g1, &ncase);
@@ -1840,6 +2033,7 @@ main(int argc, char **argv)
         }
         snprintf(bound, sizeof bound, "all area lists of length 0..2 over base 0..8 x size {1,2,3,4} x all register lists of length 0..3 over address 0..10 x size {1,2,4}; all 3-area lists over base {0,1,2,4,5,8} x size {1,2,4} x all register lists of length 0..2; each x defaults {non-zero; all-zero bits with plain and callback-backed areas, lists of <= 2 registers} x bad-default masks x area options (plain, skip-defaults / no write callback per area, all callback-backed, all memory-backed with own read / write / both accessors) x LE/BE type variants x fresh/re-init; after a refusal 15 operations (typed, bit, block of 0/1/2 words, iteration over 16/0/far addresses, sanitise)%s", NEWBOUND_T);
     }
+    family_float();
     family_wide(mc_thorough());
     family_long(mc_thorough());
     family_areas(mc_thorough());
